@@ -258,7 +258,7 @@ class DiskStorage(QueueStorage):
     def set_recipients_delivered(self, id, rcpt_indexes):
         meta = self.ops.read_meta(id)
         current = meta.get('delivered_indexes', [])
-        new = current + rcpt_indexes
+        new = current + list(rcpt_indexes)
         meta['delivered_indexes'] = new
         self.ops.write_meta(id, meta)
         log.update_meta(id, delivered_indexes=rcpt_indexes)
